@@ -684,9 +684,19 @@ class Daemon(object):
             else:
                 ser.register_type_replacement(type(obj_or_class), _pyro_obj_to_auto_proxy)
         # register the object/class in the mapping
-        self.objectsById[obj_or_class._pyroId] = obj_or_class if not weak else weakref.ref(obj_or_class)
-        if weak: weakref.finalize(obj_or_class,self.unregister,objectId)
+        if weak:
+            ref = weakref.ref(obj_or_class)
+            self.objectsById[objectId] = ref
+            weakref.finalize(obj_or_class, self._unregisterWeak, objectId, ref)
+        else:
+            self.objectsById[objectId] = obj_or_class
         return self.uriFor(objectId)
+
+    def _unregisterWeak(self, objectId, ref):
+        """finalizer of a weakly registered object: removes its registration, if that is still there"""
+        # the id can have been unregistered, and registered again for something else, in the meantime
+        if self.objectsById.get(objectId) is ref:
+            self.unregister(objectId)
 
     def unregister(self, objectOrId):
         """
